@@ -461,3 +461,117 @@ func vLemmaTxnRange(index []uint64, owner *Collection) {
 	})
 	vAssert("released", vNothingHeld())
 }
+
+// ---------------------------------------------------------------------------------------------
+// The commit protocol, one dirty block at a time (C08, C15, C09, C10, C18).
+//
+// rangeWrite: for a dirty block the delegate runs inside the block's exclusive latch; the commit id was drawn
+// inside that latch (model of commit.Next), is larger than every id drawn before, is stored as the block's last
+// commit id before the delegate runs; the collection mutex is not held while the delegate runs; nothing is held
+// afterwards.
+//
+//@ lemma props=C08,C15,C09,C10,C18
+func vLemmaRangeWrite(owner *Collection, dirty []uint64) {
+	vAssume(owner != nil && owner.slock != nil && vNothingHeld())
+	vAssume(len(dirty)*64 <= len(owner.commits) && len(owner.commits) < 1<<20) // commitCapacity ran (its contract)
+	vAssume(len(owner.fill) < 1<<25 && vDistinctBacking(dirty, owner.commits) && vDistinctBacking(dirty, owner.fill))
+	vAssume(vForall(0, len(owner.commits), func(k int) bool { return owner.commits[k] <= vNextID })) // latch invariant
+	txn := &Txn{owner: owner, dirty: dirty}
+	vCol = owner
+	before := vNextID
+	txn.rangeWrite(func(commitID uint64, chunk commit.Chunk, fill bitmap.Bitmap) {
+		vAssert("latch-held-exclusively", vLatchW[uint(chunk)%128] && vColR == 0 && !vColW && vOtherW == 0)
+		vAssert("block-is-dirty", int(chunk>>6) < len(dirty) && vBit(dirty, uint32(chunk)))
+		vAssert("id-fresh-and-increasing", commitID > before && commitID == vNextID)
+		vAssert("id-stored-for-block", owner.commits[chunk] == commitID)
+		vAssert("fill-window", vSameSlice(fill, chunk.OfBitmap(owner.fill)))
+	})
+	vAssert("released", vNothingHeld())
+}
+
+// Assumed contracts of the three per-block workers when the commit closure itself is under contract (their own
+// behaviour is the subject of other obligations).
+//
+//@ contract target=column.(*Txn).commitMarkers use verify=no
+func vContractCommitMarkers(txn *Txn, chunk commit.Chunk, fill bitmap.Bitmap, buffer *commit.Buffer) {
+	txn.commitMarkers(chunk, fill, buffer)
+}
+
+//@ contract target=column.(*Txn).commitUpdates use verify=no
+func vContractCommitUpdates(txn *Txn, chunk commit.Chunk) (updated bool) {
+	updated = txn.commitUpdates(chunk)
+	vLastUpdated = updated // ghost
+	return
+}
+
+// findMarkers: the result is recorded in ghost state so that callers' contracts can refer to it.
+//
+//@ contract target=column.(*Txn).findMarkers use props=C15,C02
+func vContractFindMarkers(txn *Txn) (b *commit.Buffer, ok bool) {
+	vRequires(txn != nil && vForall(0, len(txn.updates), func(i int) bool { return txn.updates[i] != nil }))
+	b, ok = txn.findMarkers()
+	vLastChanged = ok // ghost
+	vEnsures("marker-buffer-is-the-row-buffer", !ok || (b != nil && !b.IsEmpty() && b.Column == rowColumn))
+	return
+}
+
+var vLastChanged bool // ghost: whether the last findMarkers call found row markers
+
+var vLastUpdated bool // ghost: what the last commitUpdates call returned
+
+//@ contract target=column.(*Txn).commitCapacity use verify=no
+func vContractCommitCapacity(txn *Txn, last commit.Chunk) {
+	vModifies(&txn.owner.commits)
+	txn.commitCapacity(last)
+	vEnsures("commits-cover", len(txn.owner.commits) >= int(last)+1 && len(txn.owner.commits) < 1<<20)
+	vEnsures("ids-bounded", vForall(0, len(txn.owner.commits), func(k int) bool { return txn.owner.commits[k] <= vNextID }))
+}
+
+//@ contract target=column.(*Txn).reset use verify=no
+func vContractReset(txn *Txn) {
+	txn.reset()
+}
+
+//@ loop target=column.(*Txn).commit index=0 props=C15
+func vLoopCommitDirty(txn *Txn, rangeindex int) {
+	vInvariant(vNothingHeld() && vLogCount == 0 && -1 <= rangeindex && rangeindex < len(txn.updates))
+	vBody()
+}
+
+//@ loop target=column.(*Txn).findMarkers index=0 props=C15
+func vLoopFindMarkers(txn *Txn, rangeindex int) {
+	vInvariant(-1 <= rangeindex && rangeindex < len(txn.updates))
+	vBody()
+}
+
+// The commit closure (C15, C06, C08): whatever the transaction holds, every commit that reaches the logger is emitted
+// inside the latch of its own block with the id stored for that block (checked inside vLogger.Append), at most one
+// per dirty block, and none when nothing was applied to the block.
+//
+//@ lemma props=C15,C06,C08 mode=paths
+func vLemmaCommitEmits(owner *Collection, updates []*commit.Buffer, dirty []uint64) {
+	vAssume(owner != nil && owner.slock != nil && vNothingHeld() && owner.record == nil)
+	vAssume(vForall(0, len(updates), func(i int) bool { return updates[i] != nil }))
+	vAssume(len(owner.commits) < 1<<20 && vForall(0, len(owner.commits), func(k int) bool { return owner.commits[k] <= vNextID }))
+	vAssume(len(owner.fill) < 1<<25 && vDistinctBacking(dirty, owner.commits) && vDistinctBacking(dirty, owner.fill))
+	lg := &vLogger{owner: owner}
+	txn := &Txn{owner: owner, updates: updates, dirty: dirty, logger: lg, reader: commit.NewReader()}
+	vCol = owner
+	vLogCount = 0
+	before := vNextID
+	vLastUpdated, vLastChanged = false, false
+	txn.commit()
+	changedRows := vLastChanged
+	visited := vNextID != before // the Range model visits at most one (arbitrary) dirty block
+	vAssert("at-most-one-per-block-visited", vLogCount <= 1)
+	if !visited {
+		vAssert("no-block-no-emission", vLogCount == 0)
+	} else if changedRows {
+		vAssert("rows-changed-one-emission", vLogCount == 1)
+	} else if vLastUpdated {
+		vAssert("updated-one-emission", vLogCount == 1)
+	} else {
+		vAssert("nothing-applied-no-emission", vLogCount == 0)
+	}
+	vAssert("released", vNothingHeld())
+}
